@@ -8,7 +8,29 @@ V = os.path.abspath(V)
 COMMON_NOTE = ("Trusted: Lean 4.33 kernel; axioms propext, Classical.choice, Quot.sound only (audited per theorem with #print axioms on every run; no native_decide/bv_decide/sorry); "
                "Mathlib's definitions of rpow/sqrt/arg/floor; rustc MIR as the meaning of the source; our translator tools/mir2lean.py and the shims in lean/LymuiVerif/Core (validated on every run by the "
                "correspondence check: the same generated definitions at Float, compiled, against the real crate in-process; not verified). Modelled rather than verified: IEEE-754 rounding and libm accuracy "
-               "(theorems are over exact reals / naturals; discrete claims carry a robustness margin where the code's quantiser has one), signed zeros, NaN/infinity except where the C04 instance models them.")
+               "(theorems not named *_fp are over exact reals / naturals; discrete claims carry a robustness margin where the code's quantiser has one), signed zeros, NaN/infinity except where the C04 instances model them. "
+               "Theorems named *_fp (files Props/<id>_fp*.lean) hold for EVERY rounding operator of the standard model of floating-point arithmetic (Inst/Rounded.lean); binary64 round-to-nearest-even is formally "
+               "defined and proved to be one (Inst/Binary64.lean), its executable form is proved equal (Inst/Binary64Q.lean) and compared bit for bit with the hardware on every run; assumed there: IEEE conformance "
+               "off the sampled operands, the 1-ulp bounds and non-negativity of the platform's pow/atan2/sin/cos, no overflow on the RF paths (proved on PRFo for the C04 paths).")
+
+FP_TEXT = {
+ 'C01': 'In floating point: roundtrip_fp (the same identity for every model of floating-point arithmetic, all profiles, every 8-bit colour).',
+ 'C02': 'In floating point: lab/luv/xyy_requant_fp (exact re-quantisation through CIELAB, CIELUV, xyY in every model), round-trip bounds.',
+ 'C03': 'In floating point: cmyk_roundtrip_fp (exact), yuv/ycbcr/hsl/hsv/hwb_roundtrip_fp with the same unit bounds as over the reals.',
+ 'C04': 'In floating point: Props/C04_fp.lean (NaN from rounding residues: every forward path, reverse function and round trip finite in every model) and Props/C04_fp_overflow*.lean (the same with overflow beyond 2^1023 modelled).',
+ 'C05': 'In floating point: forward_fp (XYZ within 1e-12 of the real model, 3e-7 of the specification), white/black.',
+ 'C06': 'In floating point: forward bounds for CIELAB, CIELUV, Hunter Lab, xyY and reverse bounds on arbitrary in-range inputs in every model.',
+ 'C07': 'In floating point: OkLab via XYZ within 8.1e-10 of the real model for every colour; reverse on arbitrary in-range inputs.',
+ 'C08': 'In floating point: forward within the property tolerances for sRGB, Adobe RGB, Rec.709, Rec.2020 (partial constant), Rec.2100; reverse curves and round trips.',
+ 'C09': 'In floating point: forward formulas within 1e-10, hue determined except at exact half-degree ties (hue_tiefree_fp, hue_tie_fp).',
+ 'C10': 'In floating point: real-valued results within 1e-12, bytes are the quantisation of the exact sum perturbed by <= 1e-12.',
+ 'C11': 'In floating point: exact statements (saturation/hue 0, C=M=Y=0, white/black) and tolerance statements for greys in every model; Cb, Cr in {127,128} (128 is not provable for every rounding).',
+ 'C12': 'In floating point: step_fp (strict increase of X, Y, Z and of the four lightnesses, weak clauses by monotonicity of rounding) in every model.',
+ 'C13': 'In floating point: ranges without slack for the hexcone percentages and CMYK, YUV/YCbCr/XYZ/grayscale ranges.',
+ 'C14': 'In floating point: chroma within 6e-16 relative, lightness copied exactly, hue within 1e-12 away from the wrap point, reverse within 1.1e-14*C.',
+ 'C17': 'In floating point: from_rgb_eq_fp (the encoder in every model EQUALS the real model for every colour: no tie exists).',
+ 'C18': 'In floating point: rejection, closed form with floor(rnd(1/f))+1 entries, entries within 1e-12 of the exact positions, exact monotonicity.',
+}
 
 P = {
  'C01': ('RGB -> XYZ -> RGB identity', 'Theorem Props.C01.roundtrip: for all three profiles and every 8-bit colour as_rgb (from_rgb c k) k = c on the exact-real reading of the generated model, in robust form (any perturbation <= 0.09 of each pre-quantisation value), from |R_k*M_k - I| <= 2e-7 on the generated constants, exact curve inverses and a per-level stability lemma.', 'theorems on generated model + matrix/curve lemmas'),
@@ -53,9 +75,9 @@ def main():
             'evidence_file': f'/verif/evidence/{pid}.json',
             'replay_cmd_template': f'./check {pid} --replay {{path}}',
             'engine': 'lean-proof',
-            'level_claimed': {'category': 'proof', 'text': f'{title}: {text} The model is regenerated from rustc MIR of /repo\'s working tree on every run, so the theorems are re-checked against the current code.', 'design_ref': 'DESIGN.md section 7 and 13'},
+            'level_claimed': {'category': 'proof', 'text': f'{title}: {text} ' + (FP_TEXT.get(pid, '') + ' ' if FP_TEXT.get(pid) else '') + f'The model is regenerated from rustc MIR of /repo\'s working tree on every run, so the theorems are re-checked against the current code.', 'design_ref': 'DESIGN.md sections 7, 13 and 16'},
             'level_note': COMMON_NOTE,
-            'technique': 'Lean 4 theorems on a model regenerated from MIR; ' + tech,
+            'technique': 'Lean 4 theorems on a model regenerated from MIR; ' + tech + ('; rounded-arithmetic (standard model) theorems' if FP_TEXT.get(pid) else ''),
         })
     m = {
         'version': 1,
@@ -63,7 +85,7 @@ def main():
         'hooks': {'guard': 'cfg(lymui_verif)', 'enable': 'RUSTFLAGS="--cfg lymui_verif" when building harness/ against /repo/lymui (done by ./check)',
                   'baseline_off_cmd': 'cd /repo && cargo test --workspace --no-fail-fast --offline', 'source_commits': ['cd5f6cf'], 'add_only': True},
         'engines': [{'name': 'lean-proof', 'path': '/verif/check', 'serves_properties': [c['property_id'] for c in checks],
-                     'kind_free_text': 'MIR->Lean translator (tools/mir2lean.py), Lean 4 theorems (lean/LymuiVerif/Props), axiom audit, Float-instance correspondence against the real crate (harness corr), Rust oracle sweep for witness search (harness sweep)'}],
+                     'kind_free_text': 'MIR->Lean translator (tools/mir2lean.py), Lean 4 theorems (lean/LymuiVerif/Props), axiom audit, Float-instance correspondence against the real crate (harness corr), formal binary64 rounding compared bit for bit with the hardware (driver @R), Rust oracle sweep for witness search (harness sweep), real derive-macro expansions against an in-memory N-API object (harness_js)'}],
         'checks': checks,
         'notes': 'Every check regenerates the model from /repo\'s working tree (cargo rustc --emit=mir), rebuilds the property\'s theorem modules, audits axioms, runs the correspondence and the oracle sweep. Known findings: known_findings.json.',
         'not_applicable': na,
